@@ -183,24 +183,24 @@ add("report-01-key-not-cut-to-length", ["C03", "C13"], "heavyhitters",
     "                key = bytes(self.lhh[row, column, :key_len])", "                key = bytes(self.lhh[row, column, :])", rules=["report", "same-kernel", "keynorm"])
 add("report-02-count-from-cell", ["C13"], "heavyhitters",
     "                        self.candidate_set[key] = max_count", "                        self.candidate_set[key] = self.lhh_count[row, column]", rules=["same-kernel"])
-add("cachekey-01-threshold-ignored", ["C13"], "heavyhitters",
+add("cachekey-01-threshold-ignored", ["C13", "C04"], "heavyhitters",
     "        if (self.n_added_sort < self.n_added()) or (self.threshold_sort != threshold):", "        if self.n_added_sort < self.n_added():", rules=["cachekey"])
-add("cachekey-02-threshold-not-recorded", ["C13"], "heavyhitters",
+add("cachekey-02-threshold-not-recorded", ["C13", "C04"], "heavyhitters",
     "        self.threshold_sort = threshold\n", "", rules=["cachekey"])
-add("cachekey-03-counter-reused", ["C13"], "heavyhitters",
+add("cachekey-03-counter-reused", ["C13", "C04"], "heavyhitters",
     "        self.threshold_sort = threshold\n        self.candidate_set = Counter()\n", "        self.threshold_sort = threshold\n", rules=["cachekey"])
-add("cachekey-04-nadded-ignored", ["C13"], "heavyhitters",
+add("cachekey-04-nadded-ignored", ["C13", "C04"], "heavyhitters",
     "        if (self.n_added_sort < self.n_added()) or (self.threshold_sort != threshold):", "        if self.threshold_sort != threshold:", rules=["cachekey"])
 add("cachekey-05-regenerate-with-default", ["C13"], "heavyhitters",
     "            self.generate_candidate_set(threshold)\n", "            self.generate_candidate_set()\n", rules=["cachekey"])
-add("cachekey-06-and-for-or", ["C13"], "heavyhitters",
+add("cachekey-06-and-for-or", ["C13", "C04"], "heavyhitters",
     "        if (self.n_added_sort < self.n_added()) or (self.threshold_sort != threshold):", "        if (self.n_added_sort < self.n_added()) and (self.threshold_sort != threshold):", rules=["cachekey"])
-add("filter-01-strict", ["C13"], "heavyhitters",
+add("filter-01-strict", ["C13", "C04"], "heavyhitters",
     "                    if max_count >= threshold:", "                    if max_count > threshold:", rules=["filter"])
 add("filter-02-default-threshold-differs", ["C13"], "heavyhitters",
     "        if threshold is None:\n            threshold = np.uint32(self.phi * self.n_added())\n        else:\n            threshold = np.uint32(threshold)\n\n        self.n_added_sort",
     "        if threshold is None:\n            threshold = np.uint32(self.phi * self.width)\n        else:\n            threshold = np.uint32(threshold)\n\n        self.n_added_sort", rules=["filter"])
-add("topk-01-k-plus-one", ["C13"], "heavyhitters",
+add("topk-01-k-plus-one", ["C13", "C04"], "heavyhitters",
     "        return self.candidate_set.most_common(k)", "        return self.candidate_set.most_common(k + 1)", rules=["topk"])
 add("mutators-01-merge-forgets-nadded", ["C13"], "heavyhitters",
     "    # Merge the special counters\n    n_added_records[0] += other_n_added_records[0]\n    n_added_records[1] += other_n_added_records[1]\n\n\n@njit(\n    uint32(",
@@ -373,11 +373,11 @@ add("deleg-04-getitem-constant", ["C12"], "countmin",
     "        return self.query(key)", "        return self.query(key[:8])", rules=["deleg"])
 add("deleg-05-update-ngram-fixed-n", ["C12"], "hyperloglog",
     "        for key in keys:\n            self.add_ngram(key, ngram)", "        for key in keys:\n            self.add_ngram(key, 4)", rules=["deleg"])
-add("window-01-linear-one-window-short", ["C12"], "countmin",
+add("window-01-linear-one-window-short", ["C12", "C01", "C05"], "countmin",
     "        for i in range(key_len - (ngram - uint64(1))):\n            _add_linear(", "        for i in range(key_len - ngram):\n            _add_linear(", rules=["window"])
 add("window-02-hll-slice-short", ["C12", "C02"], "hyperloglog",
     "            _add(registers, seed, p, m, key[i : i + ngram])", "            _add(registers, seed, p, m, key[i : i + ngram - 1])", rules=["window"])
-add("window-03-hh-stride-two", ["C12"], "heavyhitters",
+add("window-03-hh-stride-two", ["C12", "C03", "C04"], "heavyhitters",
     "                key[i : i + ngram],\n                uint32(1),", "                key[2 * i : 2 * i + ngram],\n                uint32(1),", rules=["window"])
 add("window-04-log8-short-key-dropped", ["C12"], "countmin",
     "    key_len = uint64(len(key))\n    if key_len <= ngram:\n        rand_ptr = _add_log8(", "    key_len = uint64(len(key))\n    if key_len == ngram:\n        rand_ptr = _add_log8(", rules=["window"])
@@ -855,3 +855,15 @@ add("logmerge-09-log8-saturation-after-narrowing", ["C18", "C09"], "countmin",
     "            elif v >= max_count:\n                cms[row, col] = uint_maxval\n            else:\n                cprime = np.log((v - num_reserved) * (base - 1.0) + 1.0) / np.log(base)\n                cprime = uint8(cprime)\n                clower = cprime + num_reserved",
     "            else:\n                cprime = np.log((v - num_reserved) * (base - 1.0) + 1.0) / np.log(base)\n                cprime = uint8(cprime)\n                clower = cprime + num_reserved\n                if clower >= uint_maxval:\n                    cms[row, col] = uint_maxval\n                    continue",
     rules=["logmerge-shape"])
+
+add("window-07-hh-ngram-clamped-to-max-key-len", ["C03", "C04", "C12"], "heavyhitters",
+    "    key_len = np.uint64(len(key))\n    if key_len <= ngram:\n        _add(", "    ngram = min(ngram, max_key_len)\n    key_len = np.uint64(len(key))\n    if key_len <= ngram:\n        _add(", rules=["window"])
+
+add("cons-06-log-raises-only-rows-at-old-min", ["C05", "C06"], "countmin",
+    "    for row in range(depth):\n        count = cms[row, buckets[row]]\n        if count < new_count:\n            cms[row, buckets[row]] = new_count\n\n    return rand_ptr\n\n\n@njit(\n    uint64(\n        uint16[:, :],",
+    "    for row in range(depth):\n        if cms[row, buckets[row]] == min_count:\n            cms[row, buckets[row]] = new_count\n\n    return rand_ptr\n\n\n@njit(\n    uint64(\n        uint16[:, :],",
+    rules=["cons"])
+add("cons-07-linear-raises-only-rows-at-old-min", ["C05", "C01"], "countmin",
+    "        count = cms[row, buckets[row]]\n        if count < new_count:\n            cms[row, buckets[row]] = new_count\n\n\n@njit(\n    types.void(\n        uint32[:, :],\n        uint64[:],\n        uint64[:],\n        uint64,\n        uint64,\n        uint32,\n        types.Bytes(types.uint8, 1, \"C\"),\n        uint64,",
+    "        count = cms[row, buckets[row]]\n        if count == min_count:\n            cms[row, buckets[row]] = new_count\n\n\n@njit(\n    types.void(\n        uint32[:, :],\n        uint64[:],\n        uint64[:],\n        uint64,\n        uint64,\n        uint32,\n        types.Bytes(types.uint8, 1, \"C\"),\n        uint64,",
+    rules=["cons"])
